@@ -249,11 +249,12 @@ SGal3Base<_Derived>::inverse(OptJacobianRef J_minv_m) const {
   }
 
   const SO3<Scalar> so3inv = asSO3().inverse();
+  const LinearVelocity vinv = -so3inv.act(linearVelocity());
 
   return LieGroup(
-    -so3inv.act((translation()-t()*linearVelocity())),
+    -so3inv.act(translation()) - t() * vinv,
      so3inv,
-    -so3inv.act(linearVelocity()),
+     vinv,
     -t()
   );
 }
